@@ -56,8 +56,9 @@ def run(ctx):
     def param_of(f, n):
         """index of the parameter that n (possibly moved/forwarded/parenthesised) names"""
         n = ir.unwrap(n)
-        while isinstance(n, dict) and ((n.get("k") == "call" and (n.get("name") or "") in ("std::move", "std::forward") and n.get("args")) or (n.get("k") == "construct" and len(n.get("args", [])) == 1)):
-            n = ir.unwrap(n["args"][0])
+        while isinstance(n, dict) and ((n.get("k") == "call" and (n.get("name") or "") in ("std::move", "std::forward") and n.get("args")) or (n.get("k") == "construct" and len(n.get("args", [])) == 1)
+                                       or (n.get("k") == "cast" and n.get("e") is not None)):
+            n = ir.unwrap(n["e"] if n.get("k") == "cast" else n["args"][0])
         if isinstance(n, dict) and n.get("k") == "ref" and n.get("decl", "").startswith("param:"):
             for i, p0 in enumerate(f.params):
                 if p0.get("name") == n["decl"][6:]:
@@ -93,7 +94,14 @@ def run(ctx):
 
     def is_zero(n):
         n = ir.unwrap(n)
-        return isinstance(n, dict) and n.get("k") == "lit" and n.get("t") == "int" and n.get("v") == 0
+        if isinstance(n, dict) and n.get("k") == "lit" and n.get("t") == "int" and n.get("v") == 0:
+            return True
+        from .common import const_int, named_constant
+        return const_int(n) == 0 or named_constant(prog, n, NS + "detail::enumerate") == 0
+
+    def const_idx(n):
+        from .common import const_int, named_constant
+        return literal_value(n) is not None or const_int(n) is not None or named_constant(prog, n, NS + "detail::enumerate") is not None
 
     def bound_of(n, which, obj_pred, reverse_ok=("",)):
         """n is <prefix>begin/end of an object accepted by obj_pred: obj.begin() / begin(obj) / std::begin(obj); returns the prefix"""
@@ -176,7 +184,7 @@ def run(ctx):
             for f in fs:
                 r = rets(f)
                 ps = pieces(r[0]) if len(r) == 1 else None
-                ok = ps is not None and len(ps) == 2 and field_of(ps[0]) == want and (is_zero(ps[1]) if nm == "begin" else literal_value(ps[1]) is not None)
+                ok = ps is not None and len(ps) == 2 and field_of(ps[0]) == want and (is_zero(ps[1]) if nm == "begin" else const_idx(ps[1]))
                 ctx.check(bool(ok), "R20.1", f, "proxy-%s" % nm, "enumerate_proxy::%s() returns %s (expected the range's %s%s)" % (nm, [fmt(x) for x in r], want, " with index 0" if nm == "begin" else ""), f)
         # a one-past-the-end iterator may carry any index only as long as nothing can step BACK from it: once the iterator can be
         # decremented (or compared by index), end() has to carry the element count, otherwise the element in front of end() is
@@ -187,7 +195,7 @@ def run(ctx):
                 for f in P(lambda f, cls0=cls0: f.cls == cls0 and f.name == "end"):
                     r = rets(f)
                     ps = pieces(r[0]) if len(r) == 1 else None
-                    lit_idx = ps is not None and len(ps) == 2 and literal_value(ps[1]) is not None
+                    lit_idx = ps is not None and len(ps) == 2 and const_idx(ps[1])
                     ctx.check(not lit_idx, "R20.1", f, "end-index-when-steppable-backwards", "%s::end() builds its iterator with the constant index %s while the iterator offers %s: stepping back from end() "
                               "pairs the last element with index %s - 1 (the index wraps around)" % (short(cls0), fmt(ps[1]) if ps else "?", sorted({g.op for g in backward}), fmt(ps[1]) if ps else "0"), f)
         _, er = ctor_roles(NS + "detail::enumerate", 1)
@@ -202,6 +210,9 @@ def run(ctx):
                 if nm == "begin":
                     ok = ok and is_zero(ps[1])
                 ctx.check(bool(ok), "R20.1", f, "owning-%s" % nm, "detail::enumerate::%s() returns %s (expected an iterator over the owned container's %s%s)" % (nm, [fmt(x) for x in r], nm, ", index 0" if nm == "begin" else ""), f)
+        from .common import rule_no_move_from_member
+        rule_no_move_from_member(ctx, "R20.1", lambda g: g.file.endswith(("lang/enumerate.hpp", "lang/reverse.hpp")),
+                                 "begin() / end() / operator* can be asked again - a second traversal of the same enumerate / reverse object starts from an emptied iterator and visits nothing", minimum=8)
         inc = P(lambda f: f.cls == it_cls and f.op == "++" and not f.params)
         ctx.need("R20.1", "iterator::operator++()", len(inc), 1)
         for f in inc:
@@ -210,6 +221,10 @@ def run(ctx):
                 ctx.check(ok, "R20.1", f, "advances-" + what, "operator++ does not advance %s by one on every path%s" % (fld, ": the index no longer counts the elements" if what == "index_" else ""), f)
                 n_adv = sum(1 for _, _, e in f.roots() if advances(e, fld))
                 ctx.check(n_adv <= 1, "R20.1", f, "advances-once-" + what, "operator++ advances %s %d times" % (fld, n_adv), f)
+            # the index follows the position: it is advanced after the wrapped iterator, so a step that fails (an iterator whose ++ throws) leaves both where they were
+            okp, pth = cfg.must_precede(f, lambda e: advances(e, IT), lambda e: advances(e, IDX))
+            ctx.check(okp, "R20.1", f, "index-follows-position", "operator++ advances the index before the wrapped iterator: when stepping the wrapped iterator throws and the caller retries, "
+                      "every later element is paired with an index one too high", f)
             ctx.check([fmt(x) for x in rets(f)] == ["(*this)"], "R20.1", f, "pre-increment-returns-self", "operator++ returns %s" % [fmt(x) for x in rets(f)], f)
         pinc = P(lambda f: f.cls == it_cls and f.op == "++" and len(f.params) == 1)
         for f in pinc:
